@@ -126,11 +126,12 @@ def evaluate(case):
             bad("submit-accepted-after-shutdown-returned", op=o["op"][:3])
             continue
         # the future actually returned by cos is the delegate's future; the harness stored it under `name`
-        mine = [c for c in cancels.get(name, []) if in_shutdown(c[0], c[1])]
+        # (futures are told apart by address: ignore a record older than this submit - an internal future that died before may have had the same one)
+        mine = [c for c in cancels.get(name, []) if in_shutdown(c[0], c[1]) and c[0] > o["call_seq"]]
         fut_aliases = [n for n, f in w.futs.items() if f is w.futs[name]]
         for n in fut_aliases:
             if n != name:
-                mine += [c for c in cancels.get(n, []) if in_shutdown(c[0], c[1]) and c not in mine]
+                mine += [c for c in cancels.get(n, []) if in_shutdown(c[0], c[1]) and c[0] > o["call_seq"] and c not in mine]
         d = done_seq.get(name)
         done_before_return = d is not None and d < sd["ret_seq"]
         done_before_call = d is not None and d < sd["call_seq"]
